@@ -337,6 +337,8 @@ class Inputs:
                 if w["herm"]:
                     A = A + A.H
                 A = self._zero_blocks(A, o)
+                if A.is_zero_matrix and w["fmt"] == "sympy_expr":
+                    A[0, 0] = 1  # a vanishing term would remove its symbol from the expression
                 self.full[o] = A
         else:
             e = np.concatenate([2.5 * b + np.sort(rg.uniform(0, 1, size=s)) for b, s in enumerate(sizes)])
